@@ -158,8 +158,15 @@ fn insert_value(target: &mut IndexMap<Name, Value>, name: Name, value: Value) {
 
 /// Merges the result of a later occurrence of a response key into the earlier one: objects key
 /// by key, lists item by item (at any nesting depth).
+///
+/// A later occurrence that completed to `null` (a field error below it was captured at this
+/// nullable position) nulls the whole key, exactly as executing the merged selection set once
+/// would have done; an earlier `null` stays `null`.
 fn merge_value(prev_value: &mut Value, value: Value) {
     match (prev_value, value) {
+        (prev_value @ (Value::Object(_) | Value::List(_)), Value::Null) => {
+            *prev_value = Value::Null;
+        }
         (Value::Object(target_map), Value::Object(obj)) => {
             for (key, value) in obj.into_iter() {
                 insert_value(target_map, key, value);
